@@ -68,6 +68,7 @@ Failing(e) ==
   CASE e.k = "op" -> FailingOp(e)
     [] e.k = "equiv" -> FailingEquiv(e)
     [] e.k = "truth" -> FailingTruth(e)
+    [] e.k = "truths" -> UTruths(e, Asgs(e))
     [] e.k = "alpha" -> FailingAlpha(e)
     [] e.k = "subst" -> USubst(e)
     [] e.k = "canon" -> UCanon(e)
